@@ -263,29 +263,38 @@ def anyio_make(case: dict, kind: str) -> Any:
     raise KeyError(f)
 
 
+RUNAWAY = 20000  # a finite input never legitimately produces that many results here
+
+
 async def anyio_call(case: dict, kind: str) -> tuple[list, str | None]:
     """the real AnyIO function on the case, source given as `kind`"""
     f, a, d = case["f"], case["args"], case["data"]
     out: list = []
     try:
-        if f == "reduce":
-            fn = mk_async(BINOPS[a[0]])
-            if a[1] is None:
-                return [await anyio_reduce(fn, src(d, kind))], None
-            return [await anyio_reduce(fn, src(d, kind), a[1])], None
-        gen = anyio_make(case, kind)
-        if f in INFINITE:
-            take = a[0]
-            try:
-                while len(out) < take:
-                    out.append(await anext(gen))
-            except StopAsyncIteration:
-                pass
-            finally:
-                await gen.aclose()
-        else:
-            async for x in gen:
-                out.append(x if f != "groupby" else (x[0], list(x[1])))
+        async with asyncio.timeout(5.0):
+            if f == "reduce":
+                fn = mk_async(BINOPS[a[0]])
+                if a[1] is None:
+                    return [await anyio_reduce(fn, src(d, kind))], None
+                return [await anyio_reduce(fn, src(d, kind), a[1])], None
+            gen = anyio_make(case, kind)
+            if f in INFINITE:
+                take = a[0]
+                try:
+                    while len(out) < take:
+                        out.append(await anext(gen))
+                except StopAsyncIteration:
+                    pass
+                finally:
+                    await gen.aclose()
+            else:
+                async for x in gen:
+                    out.append(x if f != "groupby" else (x[0], list(x[1])))
+                    if len(out) > RUNAWAY:
+                        await gen.aclose()
+                        return out[:50], "exc:Runaway"
+    except TimeoutError:
+        return out[:50], "exc:Timeout"
     except Exception as e:  # noqa: BLE001
         return out, errname(e)
     return out, None
@@ -542,7 +551,10 @@ def run_iter_cases(cases: list[dict], res: Result, start_index: int = 0) -> None
 
 
 def run_iter(ctx: Ctx, res: Result, t_end: float) -> None:
-    """all functions, until the absolute time `t_end`"""
+    """all functions, until the absolute time `t_end`.  The functions are served round-robin in
+    chunks so that a slow machine shortens every function's sample instead of dropping the last
+    functions altogether."""
+    import time
     quick = ctx.tier == "quick"
     maxlen = 5 if quick else 7
     cap = ctx.n(3600, 60000)
@@ -550,8 +562,7 @@ def run_iter(ctx: Ctx, res: Result, t_end: float) -> None:
     sampled = res.stats.setdefault("subsampled_functions", {})
     focus_f = ctx.focus.get("f") if isinstance(ctx.focus, dict) and "f" in (ctx.focus or {}) else None
     funcs = FUNCTIONS if focus_f is None else [focus_f] + [f for f in FUNCTIONS if f != focus_f]
-    import time
-    idx = 0
+    todo: dict[str, list[dict]] = {}
     for f in funcs:
         cases = gen_function_cases(f, maxlen)
         if f == "islice":
@@ -560,18 +571,28 @@ def run_iter(ctx: Ctx, res: Result, t_end: float) -> None:
         if len(cases) > mycap:
             sampled[f] = f"{mycap} of {len(cases)}"
             cases = ctx.rng.sample(cases, mycap)
-        cases += [gen_random_long(ctx.rng, f) for _ in range(rnd_n)]
-        for i in range(0, len(cases), 2000):
-            run_iter_cases(cases[i: i + 2000], res, idx)
-            idx += 2000
-            if time.time() > t_end:
-                res.stats.setdefault("time_cut", {})[f] = f"stopped after {i + 2000} of {len(cases)}"
-                break
+        else:
+            ctx.rng.shuffle(cases)
+        # random long inputs first: they are few and must never be cut
+        todo[f] = [gen_random_long(ctx.rng, f) for _ in range(rnd_n)] + cases
+    chunk = 600 if quick else 3000
+    idx = 0
+    done = {f: 0 for f in funcs}
+    while any(done[f] < len(todo[f]) for f in funcs):
+        for f in funcs:
+            if done[f] >= len(todo[f]):
+                continue
+            if time.time() > t_end and done[f] > 0:
+                continue
+            run_iter_cases(todo[f][done[f]: done[f] + chunk], res, idx)
+            idx += chunk
+            done[f] = min(len(todo[f]), done[f] + chunk)
         if time.time() > t_end:
-            res.stats.setdefault("time_cut", {})["_stopped_before"] = [
-                g for g in funcs[funcs.index(f) + 1:]]
             break
-    res.exhaustive = not sampled and "time_cut" not in res.stats
+    cut = {f: f"{done[f]} of {len(todo[f])}" for f in funcs if done[f] < len(todo[f])}
+    if cut:
+        res.stats["time_cut"] = cut
+    res.exhaustive = not sampled and not cut
 
 
 # --------------------------------------------------------------------------- tee
